@@ -245,7 +245,7 @@ def check_property(pid, units, tier="quick", seed=0, extra=None):
     ev = {
         "property_id": pid, "tier": tier, "seed": seed, "level": "proof",
         "coverage": {
-            "obligations": len(real), "discharged": proved,
+            "obligations": len(real) - len(known_hits), "discharged": proved, "known_finding_obligations_refuted": len(known_hits),
             "checker_cmd": f"./check {pid} --tier {tier}",
             "trusted_base": sorted(set().union(*[r.assumptions for r in results]) | set(extra.get("trusted", []) if extra else [])),
             "functions_under_contract": [
